@@ -526,27 +526,28 @@ class Checkers(object):
         return True, 'channel_max is set once in thread_main before run_connection, the only path to ChannelSlots::insert'
 
     def chk_never_used_counter_cannot_overflow(self):
+        """Read off the path table (helpers read through): `next_channel_id += 1` happens only on paths where
+        `next_channel_id <= channel_max` was found to hold, and the counter's type is wider than the bound's."""
+        import paths as P
         fnp = 'io_loop::channel_slots::ChannelSlots::insert_unused_channel_id'
-        root = self.hir(fnp)
-        incs = self.if_guards(root, lambda n: n.get('k') == 'AssignOp' and n['op'] in ('+=', '+'))
-        if len(incs) != 1:
+        rows = P.table(self.ctx, fnp, ['self', 'make_entry'])
+        INC, G = 'self.next_channel_id += 1', '(self.channel_max < self.next_channel_id)'
+        incs = [x for x in rows if any(e.startswith('self.next_channel_id') and ('+=' in e or ' = ' in e) for e in x.effects)]
+        if not incs:
             return False, 'expected exactly one `+=`'
-        guards, n = incs[0]
-        if H.term(n['r']) != '1':
-            return False, 'increment is not 1'
-        for kind, ifn, pol in guards:
-            c = H.peel(ifn['cond'])
-            if c.get('k') == 'Binary' and c['op'] in ('<=', '<') and pol is True and H.same_place(c['l'], n['l']):
-                lt = c['l'].get('ty')
-                r = H.peel(c['r'])
-                rt = r.get('ty')
-                if r.get('k') == 'Cast':
-                    rt = H.peel(r['e']).get('ty')
-                widths = {'u8': 8, 'u16': 16, 'u32': 32, 'u64': 64, 'usize': 64}
-                if lt in widths and rt in widths and widths[rt] < widths[lt]:
-                    return True, '`%s += 1` sits on the true edge of `counter <= (%s widened to %s)`: the bound is below %s::MAX' % (H.term(n['l']), rt, lt, lt)
-                return False, 'counter type %s is not wider than the bound type %s: `+= 1` can overflow at the bound' % (lt, rt)
-        return False, '`+= 1` is not guarded by a comparison of the counter against channel_max'
+        for x in incs:
+            writes = [e for e in x.effects if e.startswith('self.next_channel_id') and ('+=' in e or ' = ' in e)]
+            if writes != [INC]:
+                return False, 'increment is not 1: %s' % writes
+            if (G, False) not in x.conds:
+                return False, '`+= 1` is not guarded by a comparison of the counter against channel_max'
+        adt = self.ctx.adts.get('io_loop::channel_slots::ChannelSlots')
+        tys = {f['name']: f['ty'] for f in adt['variants'][0]['fields']} if adt else {}
+        widths = {'u8': 8, 'u16': 16, 'u32': 32, 'u64': 64, 'usize': 64}
+        lt, rt = tys.get('next_channel_id'), tys.get('channel_max')
+        if lt in widths and rt in widths and widths[rt] < widths[lt]:
+            return True, '`next_channel_id += 1` only where `next_channel_id <= channel_max` (%s widened to %s): the bound is below %s::MAX' % (rt, lt, lt)
+        return False, 'counter type %s is not wider than the bound type %s: `+= 1` can overflow at the bound' % (lt, rt)
 
     def chk_reply_text_truncation_safe(self):
         """Read off the path table of client_exception (helpers read through): truncate(text, end) only where
